@@ -188,8 +188,13 @@ class Draws:
         return list(LOGTRAP.records) if LOGTRAP is not None else []
 
 
+_DEFAULT = object()
+
+
 class ConcreteDraws(Draws):
     """Replays a flat list of concrete draws in order, checking names and bounds."""
+
+    extended = False
 
     def __init__(self, values, twin=False):
         Draws.__init__(self)
@@ -199,7 +204,12 @@ class ConcreteDraws(Draws):
 
     def _next(self, name):
         if self.pos >= len(self.values):
-            raise HarnessError("replay ran out of draws at %r" % (name,))
+            # the symbolic path ended (with its violation) before the harness asked for this draw; under plain
+            # replay the run may get further - e.g. when the symbolic violation depended on state another explored
+            # path had left behind in the library.  Continue with the smallest value of the draw's domain: whatever
+            # the concrete run then shows is a fact about the real code on concrete inputs.
+            self.extended = True
+            return _DEFAULT
         n, v = self.values[self.pos]
         self.pos += 1
         if n != name:
@@ -208,18 +218,24 @@ class ConcreteDraws(Draws):
 
     def _int(self, lo, hi, name):
         v = self._next(name)
+        if v is _DEFAULT:
+            return lo
         if not isinstance(v, int) or isinstance(v, bool) or not (lo <= v <= hi):
             raise HarnessError("replay draw %r=%r outside [%r, %r]" % (name, v, lo, hi))
         return v
 
     def _bool(self, name):
         v = self._next(name)
+        if v is _DEFAULT:
+            return False
         if not isinstance(v, bool):
             raise HarnessError("replay draw %r=%r is not a bool" % (name, v))
         return v
 
     def _bytes(self, lo, hi, name):
         v = self._next(name)
+        if v is _DEFAULT:
+            return bytes(lo)
         if not isinstance(v, bytes) or not (lo <= len(v) <= hi):
             raise HarnessError("replay draw %r=%r outside length [%r, %r]" % (name, v, lo, hi))
         return v
@@ -283,6 +299,7 @@ def run_concrete(fn, params, draws, twin=False):
             out["outcome"] = "violation"
         out["violations"] = [{"kind": v.kind, "sig": jsonable(v.sig)} for v in d.flags]
     out["notes"] = jsonable(d.notes)
+    out["draws_extended"] = d.extended
     return out
 
 
